@@ -1228,7 +1228,13 @@ class Interp:
                     a = c.cls.find_attr(self.repo, mname) or c.cls.find_attr(self.repo, name)
                     if a is not None:
                         owner, expr = a
-                        return self.ev(expr, Frame({}, owner.module, owner))
+                        cv = self.ctx.class_var_get(self, owner, mname)
+                        if cv is not None:
+                            return cv
+                        v0 = self.ev(expr, Frame({}, owner.module, owner))
+                        if not self.pure and (mname in self.ctx.mutable_class_attrs() or name in self.ctx.mutable_class_attrs()):
+                            return self.ctx.class_attr_entry_value(self, owner, mname, v0)
+                        return v0
                     lazy = self.ctx.lazy_field(self, obj, c, mname)
                     if lazy is not None:
                         return lazy
@@ -1258,7 +1264,10 @@ class Interp:
             a = info.find_attr(self.repo, mname) or info.find_attr(self.repo, name)
             if a is not None:
                 owner, expr = a
-                return self.ev(expr, Frame({}, owner.module, owner))
+                v0 = self.ev(expr, Frame({}, owner.module, owner))
+                if not self.pure and (mname in self.ctx.mutable_class_attrs() or name in self.ctx.mutable_class_attrs()):
+                    return self.ctx.class_attr_entry_value(self, owner, mname, v0)
+                return v0
             raise Unsupported('class attribute %s.%s' % (info.name, name), node)
         if isinstance(obj, VModule):
             if isinstance(obj.name, ModuleInfo):
